@@ -212,6 +212,24 @@ func main() {
 		}
 		merge(local)
 	})
+	// caller file paths of every shape with the short and the full caller encoder
+	callerUnits := 5
+	if thorough {
+		callerUnits = 6
+	}
+	paths := encx.CallerPaths(callerUnits)
+	par.For(2, func(i int) {
+		local := map[string]struct{}{}
+		cc := encx.DefaultCfg()
+		cc.CallerEnc = []string{"short", "full"}[i]
+		enc := zapcore.NewConsoleEncoder(cc.EncoderConfig())
+		for _, cl := range paths {
+			ce := encx.DefaultEnt()
+			ce.Caller = cl
+			check(run, cc, enc, ce, placements[1], "caller-path:"+cc.CallerEnc, local)
+		}
+		merge(local)
+	})
 	run.Assume = []string{
 		"configuration product as in C01 (11200 key/sub-encoder combinations incl. nil and no-op) x entry variants x separators {default, |, space, ::, multi-byte} x line endings; messages and function names are non-empty (an empty column value makes the 'joined by the separator' reading ambiguous)",
 		"a nil or no-op sub-encoder yields no column; a nil name encoder falls back to the full name (documented)",
@@ -228,5 +246,6 @@ func main() {
 		"configurations": len(cfgs),
 		"entry_variants": len(ents),
 		"max_tree_nodes": nodes,
+		"caller_paths":   len(paths),
 	})
 }
